@@ -33,6 +33,8 @@ def main():
         print("patch does not apply:\n" + r.stdout)
         sys.exit(2)
     results = {}
+    repdir = os.path.join(VERIF, "replays")
+    before = set(os.path.join(r, f) for r, _d, fs in os.walk(repdir) for f in fs)
     try:
         for p in props:
             t0 = time.time()
@@ -45,6 +47,15 @@ def main():
                 print(r.stdout[-1500:])
     finally:
         sh("git -C %s checkout -- ." % REPO)
+    # replay files written while the change was applied belong to the seed, not to the unchanged tree
+    import shutil
+    dst = os.path.join(d, "replays")
+    for r, _d, fs in os.walk(repdir):
+        for f in fs:
+            pth = os.path.join(r, f)
+            if pth not in before and not f.startswith("known."):
+                os.makedirs(dst, exist_ok=True)
+                shutil.move(pth, os.path.join(dst, f))
     meta.setdefault("detection", {})[tier] = results
     meta["detected"] = any(v["violations"] for t in meta["detection"].values() for v in t.values())
     json.dump(meta, open(meta_p, "w"), indent=1)
